@@ -26,6 +26,7 @@ THEOREMS = [
     "C16.throttle_first_feedback_rule",
     "C16.throttle_first_feedback_inert",
     "C16.sample_feedback_combined_partial",
+    "C16.debounce_feedback_rule",
 ]
 RULE = ("throttle_with_mapper durations include reactivex.timer(d) WITHOUT a scheduler (must run on the subscribe-time scheduler; real-time leaks are counted); 30% of the hot throttle_first / sample cases have a consumer that pushes an echo element into the source from inside on_next (re-entrant feedback); 20% of the non-mapper cases subscribe the SAME observable instance a second time (overlapping or later) and compare with a fresh single subscription; timelines of 0..7 elements + terminal (completed/error/none; 12% non-conforming or with pre-subscription messages): bursts, gaps of exactly "
         "d-1/d/d+1 ticks, elements at / around sampler ticks, terminal with a pending element, simultaneous arrivals; hot and cold sources; "
@@ -34,10 +35,8 @@ ASSUMPTIONS = ["virtual time in integer ticks on TestScheduler; the operator's t
                "source message wins a tie against them (inlined (due, seq) rule of VirtualTimeScheduler)",
                "subscription at 200, disposal at 1000; sample(period) is cut by the disposal (ticks < 1000), everything else ends before"]
 
-# Operators whose re-entrant feedback cases have to wait for a fix in /repo (fixes/C16_reentrant_debounce.patch,
-# fixes/C16_reentrant_throttle_with_mapper.patch: the pending flag is cleared AFTER the downstream on_next, so an element the
-# consumer pushes from inside that call is dropped).  The models (simRunFb / twmSimFb) are of the FIXED code.  Remove an
-# operator from this set once its patch is in /repo.
+# Operators whose re-entrant feedback cases have to wait for a fix in /repo (none: debounce and throttle_with_mapper were fixed by
+# 576f241 / eb791ab — the pending flag is now cleared before the downstream on_next; the models simRunFb / twmSimFb are of that code).
 REENTRANT_PENDING_FIX = set()
 
 OPS = ["throttle_first", "debounce", "debounce_alias", "sample", "sample_obs", "throttle_with_mapper"]
@@ -345,4 +344,4 @@ def shrink(case):
 
 
 LEVEL_TEXT = ('Lean theorems, for all timelines (no bound, no sortedness needed), due times and element types: the handler-level models of throttle_first (last_on_next fold), debounce (id / has_value / value + Serial timer with the (due,seq) tie rule inlined) and sample (latest / has_value / at_end against an arbitrary list of sampler events) equal the declarative rules of the property text (window rule; emit iff the next source notification is later than t+d, flush at completion, drop at error; latest not-yet-sampled element at each tick); throttle_with_mapper as a trace machine equals the pending-element rule on every event interleaving. Tied to the code by differential runs on TestScheduler (hot/cold sources, gaps exactly d, bursts, terminal with a pending element, sampler as interval or observable) and by oracles written from the property text.')
-LEVEL_NOTE = ('Re-entrant feedback: throttle_first proved over the combined arrival sequence; sample only as scheduler run over the combined queue (sample_feedback_combined_partial: the window form is missing); debounce / throttle_with_mapper feedback cases wait for fixes/C16_reentrant_*.patch (REENTRANT_PENDING_FIX), their feedback models have correspondence + oracle only. sample(period): the tick list of interval(period) (sub+k*period below the disposal time) is driver glue; the theorem is for any tick list. throttle_with_mapper / sample(observable): the global event order is built by a stable merge in the driver (validated by the correspondence only). The (due, seq) tie rule is no longer assumed for debounce, throttle_first and sample(observable): *_sim_bridge / sample_tie_rule_derived prove that a scheduler simulation (queue ordered by due time then insertion, hot messages scheduled first, same handler functions) equals the two-stream runs; the driver also runs it on every case. Trusted: correspondence harness, generators, that the messages of a hot source are scheduled before the timers of the operator.')
+LEVEL_NOTE = ('Re-entrant feedback: throttle_first proved over the combined arrival sequence; sample only as scheduler run over the combined queue (sample_feedback_combined_partial: the window form is missing); debounce / throttle_with_mapper feedback (fixed by 576f241 / eb791ab): debounce_feedback_rule proves simRunFb (debOp) = the rule over the combined arrival sequence; for throttle_with_mapper the feedback machine twmSimFb (dynamic queue: throttle observables scheduled when their element is handled, echoes counted as mapper calls) has correspondence + oracle only — missing: a rule-level statement for the dynamic queue (the static trace theorem twm_pending_on_fire does not cover echoes). sample(period): the tick list of interval(period) (sub+k*period below the disposal time) is driver glue; the theorem is for any tick list. throttle_with_mapper / sample(observable): the global event order is built by a stable merge in the driver (validated by the correspondence only). The (due, seq) tie rule is no longer assumed for debounce, throttle_first and sample(observable): *_sim_bridge / sample_tie_rule_derived prove that a scheduler simulation (queue ordered by due time then insertion, hot messages scheduled first, same handler functions) equals the two-stream runs; the driver also runs it on every case. Trusted: correspondence harness, generators, that the messages of a hot source are scheduled before the timers of the operator.')
